@@ -17,7 +17,6 @@ import shutil
 import subprocess
 import sys
 import tempfile
-import time
 import traceback
 import zlib
 
@@ -724,7 +723,12 @@ def run_monitored_tx(ctx, tap, root, d, idx, j, tx, rng, wb, model, new_model, f
     try:
         ref_old = evaluate(refdir, "%d:%d" % (idx, j))
     except EvalFailure as ef:
-        raise_harness("reference S_old could not be observed", ef)
+        if _site(ef.exc) == "harness":
+            raise_harness("reference S_old could not be observed", ef)
+        # a clean, quiescent index that cannot be dumped / written / re-opened: whoosh's failure, not a crash matter
+        ctx.fail("clean-execution", "S_old-unobservable:%s:exc:%s@%s" % (ef.phase, type(ef.exc).__name__,
+                                                                          _site(ef.exc)), wb, _tb(ef.exc))
+        return False, info
     finally:
         shutil.rmtree(refdir, ignore_errors=True)
     segs_before = None
